@@ -77,6 +77,8 @@ type vc17Call struct {
 	probe bool
 	qname string
 	qtype uint16
+	// at is when the call was made.
+	at time.Time
 }
 
 // The reference's own limits, deliberately not the constants of the package
@@ -85,6 +87,15 @@ type vc17Call struct {
 const (
 	vc17MinMsg   = 12 + 1 + 4
 	vc17UDPLimit = 4096
+)
+
+// vc17RoundSlack: a probe of a responsive upstream that was started less than
+// this before the round's deadline may or may not have been answered in time;
+// vc17RoundLoad is how long such a probe may take on a machine that is not
+// overloaded.
+const (
+	vc17RoundSlack = 8 * time.Millisecond
+	vc17RoundLoad  = 4 * time.Millisecond
 )
 
 // vc17ProbeSuffix is the suffix of every health-check domain.
@@ -152,6 +163,16 @@ type vc17Env struct {
 	backoff time.Duration
 	logMu   sync.Mutex
 	log     []vc17Call
+
+	// roundDeadline is the deadline of the context of the health-check round
+	// being run, if it has one.  A main whose probe was not made before it
+	// (the round ran out of time) is not decided by the statement: the
+	// reference then takes over what the code did with it.
+	roundDeadline time.Time
+	// roundLoad is set when, in a round with a deadline, the probe of an
+	// upstream that answers at once took long: the machine is loaded and the
+	// probe may have run into the deadline.
+	roundLoad atomic.Bool
 
 	// probeEnd is, per main, when its last observed health-check probe
 	// returned: the earliest moment its failure can count as established.
@@ -258,6 +279,7 @@ func vc17NewEnv(h *Handler, mains, fbs []vc17Node, backoff time.Duration) (e *vc
 func (e *vc17Env) class(c string) { e.classes[c] = struct{}{} }
 
 func (e *vc17Env) record(c vc17Call) {
+	c.at = time.Now()
 	e.logMu.Lock()
 	defer e.logMu.Unlock()
 
@@ -399,6 +421,78 @@ func (e *vc17Env) checkRefreshErr(fail vc17Fail, rerr error) {
 	}
 }
 
+// vc17Soft carries a verdict that may still be withdrawn.
+type vc17Soft struct{ msg string }
+
+// duringRound runs one health-check round and, delay after its start, sends
+// one query whose context expires after budget.  The round is judged as usual;
+// the query may have seen the eligible set from before or from after the
+// round.  A failing verdict on the query is returned, not raised, so that the
+// caller can repeat the experiment before trusting it.  inRound tells whether
+// the query was really sent while the round was in flight and the round was
+// still running when the query's budget ended.
+func (e *vc17Env) duringRound(ctx context.Context, fail vc17Fail, delay, budget time.Duration, id uint16) (verdict string, inRound bool, err error) {
+	fmt.Fprintf(&e.hist, "C@%s/%s ", delay, budget)
+
+	before := append([]bool(nil), e.active...)
+	name := "d0" + vc17BurstSuffix
+	var (
+		rw                 *vc17RW
+		qerr               error
+		sent, done, rndEnd time.Time
+	)
+
+	err = e.refreshRun(fail, func() {
+		var wg sync.WaitGroup
+		wg.Add(1)
+		go func() {
+			defer wg.Done()
+
+			time.Sleep(delay)
+			qctx, cancel := context.WithTimeout(ctx, budget)
+			defer cancel()
+
+			sent = time.Now()
+			rw, qerr = e.send(qctx, name, dns.TypeA, id, false)
+			done = time.Now()
+		}()
+
+		_ = e.h.Refresh(ctx)
+		rndEnd = time.Now()
+		wg.Wait()
+	}, true)
+	if err != nil {
+		return "", false, err
+	}
+
+	inRound = sent.Add(budget).Before(rndEnd)
+
+	var calls []vc17Call
+	for _, c := range e.log {
+		if c.qname == name {
+			calls = append(calls, c)
+		}
+	}
+
+	func() {
+		defer func() {
+			if r := recover(); r != nil {
+				soft, ok := r.(vc17Soft)
+				if !ok {
+					panic(r)
+				}
+
+				verdict = fmt.Sprintf("%s\n(query sent %s into a round of %s, budget %s, returned after %s)", soft.msg, delay, rndEnd.Sub(sent.Add(-delay)), budget, done.Sub(sent))
+			}
+		}()
+
+		softFail := func(format string, args ...any) { panic(vc17Soft{msg: fmt.Sprintf(format, args...)}) }
+		e.checkQuery(softFail, name, dns.TypeA, id, calls, rw, qerr, before)
+	}()
+
+	return verdict, inRound, nil
+}
+
 // vc17BurstSuffix ends the names of queries that are sent simultaneously.
 const vc17BurstSuffix = ".burst.example."
 
@@ -478,7 +572,12 @@ func (e *vc17Env) refreshRun(fail vc17Fail, run func(), observable bool) (err er
 	run()
 	t3 := time.Now()
 
+	if e.roundLoad.Swap(false) {
+		return &vc17ErrAmbiguous{what: "a probe of a responsive upstream took long in a round with a deadline"}
+	}
+
 	probes := make([]int, len(e.mains))
+	firstProbe := map[int]time.Time{}
 	for _, c := range e.log {
 		if strings.HasSuffix(c.qname, vc17BurstSuffix) {
 			// A client's query in flight during the round.
@@ -490,6 +589,10 @@ func (e *vc17Env) refreshRun(fail vc17Fail, run func(), observable bool) (err er
 		}
 
 		if c.main {
+			if probes[c.idx] == 0 {
+				firstProbe[c.idx] = c.at
+			}
+
 			probes[c.idx]++
 		}
 	}
@@ -569,6 +672,49 @@ func (e *vc17Env) refreshRun(fail vc17Fail, run func(), observable bool) (err er
 			}
 
 			continue
+		}
+
+		if dl := e.roundDeadline; observable && !dl.IsZero() {
+			at, probed := firstProbe[i]
+			undecided := false
+			switch {
+			case !probed:
+				// Not probed because the round had run out of time?
+				undecided = !t3.Before(dl)
+			case !at.Before(dl):
+				// "Probed" with a context that had already expired.
+				undecided = true
+			case up && dl.Sub(at) < vc17RoundSlack:
+				undecided = true
+			}
+
+			if undecided {
+				// Whether a main that the round did not get to (in time) stays
+				// in rotation is not decided: take over what the code did.
+				in := false
+				e.h.activeUpstreamsMu.RLock()
+				for _, u := range e.h.activeUpstreams {
+					in = in || u == Upstream(m)
+				}
+				e.h.activeUpstreamsMu.RUnlock()
+
+				e.active[i] = in
+				if in {
+					e.class("round-ran-out-unprobed-main-stays-in")
+					*s = vc17MainState{}
+					if !e.h.upstreams[i].lastFailedHealthcheck.IsZero() {
+						// In rotation, yet with a failure on record: from now
+						// on the code and the reference would disagree about
+						// the backoff.  Not decided either; end the case.
+						return &vc17ErrAmbiguous{what: "an unprobed main stays in rotation with a failure time on record"}
+					}
+				} else {
+					e.class("round-ran-out-unprobed-main-taken-out")
+					*s = vc17MainState{failed: true, f0: e.failedSince(i, t2, t3), f1: t3}
+				}
+
+				continue
+			}
 		}
 
 		if observable && probes[i] == 0 {
